@@ -18,7 +18,8 @@ fam_waitn(rng)   1-2 nsync_wait_n callers (sometimes a third caller through nsyn
                  of its counters reaches zero under every schedule; otherwise (only condition variables
                  could wake it, and a signal may come before the wait) the scenario is marked
                  `expect stuck-ok`.
-fam_waitn_f3(rng) the shape that exposes defect F3 (cv_dequeue without a membership check): callers with
+fam_waitn_f3(rng) the shape that exposed defect F3 (cv_dequeue without a membership check; repaired: this family
+                 now exercises the walk over pcv->waiters and the wait loop of cv_dequeue): callers with
                  short deadlines on condition variables racing signallers / broadcasters.
 
 Usage as a script:  gen_waitn.py <seed> <n_scenarios> <n_execs> <out.batch> [family]
